@@ -262,6 +262,9 @@ def int_model(x=0, base=None):
         if base is not None:
             raise TypeError("int() can't convert non-string with explicit base")
         return x
+    if getattr(x, "_symx_symbolic", False) and not isinstance(x, SymStr):
+        from . import floats as _sf
+        return _sf.to_int(x)
     if not isinstance(x, SymStr):
         return int(x) if base is None else int(x, base)
     b = 10 if base is None else base
